@@ -47,6 +47,7 @@ RULE += (' Also: all / any / min / tuple / sorted / nsmallest / dropwhile / filt
 RULE += (' Also: comparisons (==, <) of user keys answering with awaitable objects: only their truth value is used (iter with sentinel, groupby, max, sorted).')
 RULE += (' Also: expression objects whose sum is an awaitable expression (sum); classes with an async __call__ used as callables (their instances are results).')
 RULE += (' Also: accumulate (default addition) over expression objects whose sums are awaitable.')
+RULE += (' Also: future-like awaitables report done() and offer result() (read on the side = not awaited: a foreign action).')
 ASSUMPTIONS = ["a loop that checks identity of every token and reply is at least as strict as any real event loop",
                "C functions called from asyncstdlib code are visible to sys.monitoring CALL events"]
 EXHAUSTIVE = {"quick": False, "thorough": False}
@@ -520,6 +521,15 @@ class FutureLike:
 
     def __init__(self, tag, susp, result=None, raises=None):
         self.tag, self.susp, self.result, self.raises, self.awaits = tag, susp, result, raises, 0
+
+    # (future-style: "settled already" - awaiting it still goes through __await__, checkpoints included; reading the
+    # result on the side is not awaiting)
+    def done(self):
+        return True
+
+    def result(self):
+        CTX.foreign.append(f"result() of awaitable {self.tag!r} was read instead of awaiting it")
+        return ("not what awaiting gives", self.tag)
 
     def __await__(self):
         self.awaits += 1
